@@ -18,7 +18,8 @@ IsSubstringOfHtml(n) == \E i \in 1..5 : \E j \in (i - 1)..4 : n = SubSeq(N_html,
 PFollowersCode == {N_address, N_article, N_aside, N_blockquote, N_datagrid, N_dialog, N_dir, N_div, N_dl,
                    N_fieldset, N_footer, N_form, N_h1, N_h2, N_h3, N_h4, N_h5, N_h6, N_header, N_hr, N_menu,
                    N_nav, N_ol, N_p, N_pre, N_section, N_table, N_ul}
-PFollowersStd  == {N_address, N_article, N_aside, N_blockquote, N_details, N_div, N_dl, N_fieldset, N_figcaption,
+\* ASSUMED: the obsolete element dir is accepted as a follower as the code does (the parser closes p before it)
+PFollowersStd  == {N_dir, N_address, N_article, N_aside, N_blockquote, N_details, N_div, N_dl, N_fieldset, N_figcaption,
                    N_figure, N_footer, N_form, N_h1, N_h2, N_h3, N_h4, N_h5, N_h6, N_header, N_hgroup, N_hr, N_main,
                    N_menu, N_nav, N_ol, N_p, N_pre, N_section, N_table, N_ul}
 PBadParents    == {N_a, N_audio, N_del, N_ins, N_map, N_noscript, N_video}
